@@ -92,6 +92,14 @@ def gen_script(rng, t, nops=None, faults=False, misuse=False):
         else:
             lines.append('dall %s' % rng.choice(['fwd', 'rev', 'alt']))
     lines.append('dall %s' % rng.choice(['fwd', 'rev', 'alt']))
+    if arrays_ok:
+        # plain cycles between two capacity queries, through the throwing and the composable members, with element sizes
+        # below the node size of their bucket: what one call takes the matching call gives back
+        for _ in range(3):
+            es = rng.choice([1, 3, 5, 12, 20]); es = min(es, t['mx'] if t['kind'] == 'coll' else t['lns'])
+            cnt = rng.choice([2, 3, 4, 6])
+            op = rng.choice(['aa', 'ta'])
+            lines += ['q %d' % es, '%s %d %d 1' % (op, cnt, es), 'd 0%s' % (' t' if op == 'ta' else ''), 'q %d' % es]
     lines.append('q %d' % sizes[0])
     # one more allocate/release cycle after everything was released: must not grow
     lines.append('an %d 1' % sizes[0])
